@@ -509,6 +509,8 @@ def countMismatch (w : World) : Bool :=
       let ld := (ts.segmentLeaders.get? seg).getD ts.leaderNode
       let q := ((w.node ld).queues.get? (t, seg)).getD {}
       (ts.sealedSegments.get? seg).getD 0 != q.entries.length
+/-- the trigger `sealedCountStale`, reported as soon as it holds -/
+def stale (w : World) : String := if countMismatch w then "#quirk sealedCountStale\n" else ""
 /-- extra lines about the step just taken (ghost state), for the attribution of oracle violations -/
 def notes (w w' : World) (tid : Nat) (o : StepOut) : String :=
   let a := if w'.writes.length > w.writes.length then
@@ -517,8 +519,10 @@ def notes (w w' : World) (tid : Nat) (o : StepOut) : String :=
       | none => ""
     else ""
   let b := match w.tasks.get? tid, o with
-    | some (.getPlanned n _ _ _ _ _), .done .empty =>
-      if (w.node n).applied < w.log.length then "#quirk readerLagsMetadata\n" else ""
+    | some (.getPlanned n topic _ _ cur _), .done .empty =>
+      -- the plan was made from metadata that is behind the log now, or was behind what the node has applied since
+      let curNow := (((w.node n).md.topics.get? topic).map (·.currentSegment)).getD cur
+      if (w.node n).applied < w.log.length || cur < curNow then "#quirk readerLagsMetadata\n" else ""
     | _, _ => ""
   a ++ b
 end PL
@@ -558,13 +562,13 @@ def handlePL (st : DState) (toks : List String) : Option (DState × String) :=
     match tid.toNat? with
     | some tid =>
       let (w', o) := Plane.stepTask st.world tid
-      some ({ st with world := w' }, PL.notes st.world w' tid o ++ PL.outStr o)
+      some ({ st with world := w' }, PL.notes st.world w' tid o ++ PL.stale w' ++ PL.outStr o)
     | none => some (st, "bad-op")
   | ["pl", "apply", n] =>
     match n.toNat? with
     | some n =>
       let (w', r) := Plane.applyNext st.world n
-      some ({ st with world := w' }, match r with | some i => s!"applied {i}" | none => "none")
+      some ({ st with world := w' }, PL.stale w' ++ match r with | some i => s!"applied {i}" | none => "none")
     | none => some (st, "bad-op")
   | ["pl", "sync", n] =>
     match n.toNat? with
@@ -574,7 +578,8 @@ def handlePL (st : DState) (toks : List String) : Option (DState × String) :=
     let (w', outs) := Plane.drain st.world
     let q := if w'.writes.any (fun ev => !ev.ownedAtWrite) && !(st.world.writes.any (fun ev => !ev.ownedAtWrite))
       then "#quirk staleLeaseWrite\n" else ""
-    some ({ st with world := w' }, q ++ " | ".intercalate (outs.map fun (tid, o) => s!"t{tid} " ++ PL.outStr o))
+    -- a GET that answered EMPTY inside the drain: was its node behind the log?  (drain applies everything first, so no)
+    some ({ st with world := w' }, q ++ PL.stale w' ++ " | ".intercalate (outs.map fun (tid, o) => s!"t{tid} " ++ PL.outStr o))
   | ["pl", "dump"] =>
     some (st, (if PL.countMismatch st.world then "#quirk sealedCountStale\n" else "") ++ PL.dump st.world)
   | _ => none
